@@ -14,6 +14,10 @@ import (
 
 const UserEnterprise uint32 = 7
 
+// UserEnterpriseBig is a second user-registered enterprise whose number does
+// not fit 16 bits (private enterprise numbers are 32-bit).
+const UserEnterpriseBig uint32 = 100000
+
 // Setup loads the registry and registers enterprise 7 (signed, float32 and
 // fixed-length octet array elements do not occur in the shipped registries).
 func Setup() {
@@ -32,6 +36,12 @@ func Setup() {
 	put("userF32", 4, entities.Float32, 4)
 	put("userOctets5", 5, entities.OctetArray, 5)
 	put("userS64", 6, entities.Signed64, 8)
+	if err := registry.InitNewRegistry(UserEnterpriseBig); err != nil {
+		panic(err)
+	}
+	if err := registry.PutInfoElement(*entities.NewInfoElement("userBigU16", 1, entities.Unsigned16, UserEnterpriseBig, 2), UserEnterpriseBig); err != nil {
+		panic(err)
+	}
 }
 
 // SetupFixedString additionally registers a string element DECLARED with a
@@ -68,6 +78,7 @@ const (
 	KOctetFix
 	KRevU64  // reverse (29305) element
 	KAntreaS // Antrea (56506) string
+	KUserBig // unsigned16 of a user enterprise above 65535
 	NumKinds
 	// KUserFixedStr is a user-registered string element DECLARED with a fixed
 	// length (8).  The library always length-prefixes strings whatever the
@@ -105,6 +116,7 @@ var defs = [NumKinds + 2]elemDef{
 	KOctetFix:     {"userOctets5", UserEnterprise},
 	KRevU64:       {"reverseOctetDeltaCount", registry.IANAReversedEnterpriseID},
 	KAntreaS:      {"sourcePodName", registry.AntreaEnterpriseID},
+	KUserBig:      {"userBigU16", UserEnterpriseBig},
 }
 
 func (k Kind) String() string { return defs[k].name }
@@ -119,7 +131,7 @@ func (k Kind) Width() int {
 	switch k {
 	case KU8, KS8, KBool:
 		return 1
-	case KU16, KS16:
+	case KU16, KS16, KUserBig:
 		return 2
 	case KU32, KS32, KF32, KDTS, KIPv4, KIPv4in16:
 		return 4
@@ -164,7 +176,7 @@ func Draw(k Kind, tag string, n int) Val {
 	case KS8:
 		v.U = uint64(sx.U8(tag))
 		v.Enc = ref.U8(nil, uint8(v.U))
-	case KU16, KS16:
+	case KU16, KS16, KUserBig:
 		v.U = uint64(sx.U16(tag))
 		v.Enc = ref.U16(nil, uint16(v.U))
 	case KU32, KS32, KF32, KDTS:
@@ -205,7 +217,7 @@ func Element(v Val) entities.InfoElementWithValue {
 	switch v.K {
 	case KU8:
 		return entities.NewUnsigned8InfoElement(ie, uint8(v.U))
-	case KU16:
+	case KU16, KUserBig:
 		return entities.NewUnsigned16InfoElement(ie, uint16(v.U))
 	case KU32:
 		return entities.NewUnsigned32InfoElement(ie, uint32(v.U))
@@ -249,7 +261,7 @@ func Same(v Val, e entities.InfoElementWithValue) bool {
 	switch v.K {
 	case KU8:
 		return e.GetUnsigned8Value() == uint8(v.U)
-	case KU16:
+	case KU16, KUserBig:
 		return e.GetUnsigned16Value() == uint16(v.U)
 	case KU32, KDTS:
 		return e.GetUnsigned32Value() == uint32(v.U)
